@@ -33,7 +33,10 @@ def saveload(case):
     try:
         seqs = [build(sc, via(idx + i)) for i, sc in enumerate(scores)]
         line["saved"] = [P.raw_rel(s) for s in seqs]
-        Sequence.sequences_save(seqs, path)
+        if len(seqs) == 1 and idx % 2:
+            seqs[0].save(path)              # the single-sequence entry point
+        else:
+            Sequence.sequences_save(seqs, path)
         tgt = idx % len(seqs)
         line["target"] = tgt
         loaded = Sequence.sequences_load(file_path=path) if tgt == 0 and idx % 2 == 0 else \
@@ -136,8 +139,13 @@ def load(case):
         write_file(res, tracks, path)
         r, f = parse_file(path)
         line["res"], line["file"] = r, f
-        loaded = Sequence.sequences_load(file_path=path, track_indices=[list(g) for g in groups],
-                                         meta_track_indices=list(meta), target_meta_track_index=target)
+        if idx % 3 == 0:
+            from scoda.midi.midi_file import MidiFile
+            loaded = Sequence.sequences_load(midi_file=MidiFile.open(path), track_indices=[list(g) for g in groups],
+                                             meta_track_indices=list(meta), target_meta_track_index=target)
+        else:
+            loaded = Sequence.sequences_load(file_path=path, track_indices=[list(g) for g in groups],
+                                             meta_track_indices=list(meta), target_meta_track_index=target)
         line["loaded"] = [P.raw_abs(s) for s in loaded]
     except Exception as e:
         line["raised"] = f"{type(e).__name__}: {e}"
